@@ -26,6 +26,7 @@ const (
 	sigF20 = "F20-dropprefix-matches-into-version-suffix"
 	sigF24 = "F24-dropprefix-containsprefix-misses-table"
 	sigF15 = "F15-dropall-crash-exposes-older-version"
+	sigF29 = "F29-dropprefix-deadlocks-with-inflight-commit"
 )
 
 func (h *hist) xemit(term, desc string) { h.emit("X:"+term, desc) }
@@ -875,7 +876,12 @@ func concurrentDrop(c *Ctx, all bool) error {
 	if err != nil {
 		return err
 	}
-	defer db.Close()
+	leakDB := false
+	defer func() {
+		if !leakDB {
+			db.Close()
+		}
+	}()
 	for i := 0; i < 20; i++ {
 		k := []byte(fmt.Sprintf("p/%d", i))
 		if err := db.Update(func(t *badger.Txn) error { return t.Set(k, []byte("x")) }); err != nil {
@@ -923,10 +929,25 @@ func concurrentDrop(c *Ctx, all bool) error {
 	}
 	time.Sleep(time.Duration(c.Rng.Intn(3000)) * time.Microsecond)
 	var derr error
-	if all {
-		derr = db.DropAll()
-	} else {
-		derr = db.DropPrefix([]byte("p/"))
+	dropDone := make(chan struct{})
+	go func() {
+		if all {
+			derr = db.DropAll()
+		} else {
+			derr = db.DropPrefix([]byte("p/"))
+		}
+		close(dropDone)
+	}()
+	select {
+	case <-dropDone:
+	case <-time.After(30 * time.Second):
+		// the drop never returns (finding F29): the DB is wedged, its goroutines are abandoned
+		close(stop)
+		c.Oracle(false, sigF29, "a drop run with concurrent committers never returns: an in-flight commit sits in writeCh with no writer goroutine while the drop waits for its timestamp",
+			J{"drop": map[bool]string{true: "DropAll", false: "DropPrefix"}[all]})
+		c.Count("concurrent drop hung")
+		leakDB = true
+		return nil
 	}
 	time.Sleep(time.Duration(c.Rng.Intn(1000)) * time.Microsecond)
 	close(stop)
@@ -986,6 +1007,65 @@ func concurrentDrop(c *Ctx, all bool) error {
 	return nil
 }
 
+// F29, deterministic: a committer is held at the hook point between the blockWrites check and
+// the send to writeCh; DropPrefix blocks writes, stops doWrites and drains writeCh; then the
+// committer is released.  Nobody serves its request, and filterPrefixesToDrop's View waits
+// for its commit timestamp.
+func scenarioF29(c *Ctx) (bool, error) {
+	histSeq++
+	dir := filepath.Join(os.Getenv("VERIF_SCRATCH_DIR"), fmt.Sprintf("f25_%d", histSeq))
+	if os.Getenv("VERIF_SCRATCH_DIR") == "" {
+		dir = filepath.Join(os.TempDir(), fmt.Sprintf("verif_f25_%d_%d", os.Getpid(), histSeq))
+	}
+	os.RemoveAll(dir)
+	os.MkdirAll(dir, 0o755)
+	defer os.RemoveAll(dir)
+	db, err := openSysDB(dir, sysOpts{Detect: true, NKeep: 1, MaxLevels: 4, VThreshold: 32, TableSize: 1 << 20, BaseLevelSize: 8 << 10})
+	if err != nil {
+		return false, err
+	}
+	if err := db.Update(func(t *badger.Txn) error { return t.Set([]byte("p/1"), []byte("x")) }); err != nil {
+		return false, err
+	}
+	arrived := make(chan struct{})
+	gate := make(chan struct{})
+	var once sync.Once
+	badger.VerifSetController(&badger.VerifController{
+		Point: func(name string, args ...uint64) {
+			if name == "sendToWriteCh.beforeSend" {
+				first := false
+				once.Do(func() { first = true })
+				if first {
+					close(arrived)
+					<-gate
+				}
+			}
+		},
+	})
+	defer badger.VerifSetController(nil)
+	commitDone := make(chan error, 1)
+	go func() {
+		commitDone <- db.Update(func(t *badger.Txn) error { return t.Set([]byte("w"), []byte("y")) })
+	}()
+	<-arrived
+	dropDone := make(chan error, 1)
+	go func() { dropDone <- db.DropPrefix([]byte("p/")) }()
+	time.Sleep(500 * time.Millisecond) // prepareToDrop: writes blocked, doWrites stopped, writeCh drained
+	close(gate)
+	select {
+	case derr := <-dropDone:
+		// no deadlock on this run (the drain came after the send): the drop and the commit must both finish
+		cerr := <-commitDone
+		c.Oracle(derr == nil, "c29-concurrent-drop-error", "DropPrefix failed with a commit in flight", J{"err": fmt.Sprint(derr), "commit": fmt.Sprint(cerr)})
+		db.Close()
+		return false, nil
+	case <-time.After(5 * time.Second):
+		c.Oracle(false, sigF29, "DropPrefix with a commit in flight never returns: the commit's request sits in writeCh with no writer goroutine while filterPrefixesToDrop's View waits for its timestamp; every later transaction hangs too",
+			J{"scenario": "commit held at sendToWriteCh.beforeSend, DropPrefix started, commit released after the drain"})
+		return true, nil // the DB is wedged: abandoned, not closed
+	}
+}
+
 func init() {
 	register("C29", func(c *Ctx) error {
 		c.Setup("Keys Spec Lsm Compact Iter Sys Drop CorrC29", "run_case")
@@ -1003,6 +1083,11 @@ func init() {
 		if err := crashDropAll(c, true); err != nil {
 			return err
 		}
+		rep29, err := scenarioF29(c)
+		if err != nil {
+			return err
+		}
+		c.Extra["witness_F29_reproduced"] = rep29
 		nConc := 4 + c.N/50
 		for i := 0; i < nConc; i++ {
 			if err := concurrentDrop(c, i%2 == 0); err != nil {
